@@ -51,6 +51,7 @@ type GOp struct {
 	Reuse  bool `json:"reuse,omitempty"`  // reuse the thread's single key buffer (bench/failover.go pattern)
 	TTL0   bool `json:"ttl0,omitempty"`   // caller context carries a TTL cell holding 0
 	CBef   bool `json:"cbef,omitempty"`   // cancel the caller's context before Get
+	CDur   bool `json:"cdur,omitempty"`   // cancel the caller's context while the build it caused is in flight (done by the builder)
 	DL     bool `json:"dl,omitempty"`     // the caller's context carries a deadline
 }
 
@@ -698,6 +699,12 @@ func (h *fh) builder(k int) func(ctx context.Context) (Tok, error) {
 			_ = cache.WithTTL(ctx, c.TTL, c.Upd)
 		}
 
+		// The caller gives up (its context is cancelled) while the build it has caused is running.
+		if c, ok := ctx.Value(cancelDurKey{}).(context.CancelFunc); ok {
+			c()
+			h.ev(FEv{Kind: "cancel", Key: k, Name: "during build"})
+		}
+
 		// The build is in flight: let every other thread run here.
 		h.point(0xb0 + uint32(k))
 
@@ -713,7 +720,14 @@ func (h *fh) builder(k int) func(ctx context.Context) (Tok, error) {
 			out = h.cfg.Script[i]
 		}
 
-		if out == 'f' {
+		// 'p': the builder panics (only where the panic reaches a caller that recovers it: a build on the caller's own
+		// goroutine sees the caller's cancellable context, a background build sees a detached one and just fails)
+		if out == 'p' && ctx.Done() != nil {
+			h.ev(FEv{Kind: "build-end", Key: k, N: n, Err: errBuilderPanic, Nil: true, Ctx: ctxObs{Err: ctx.Err()}})
+			panic(builderPanic{})
+		}
+
+		if out == 'f' || out == 'p' {
 			err := &TokErr{K: h.names[k], N: n}
 			h.ev(FEv{Kind: "build-end", Key: k, N: n, Err: err, Nil: true, Ctx: ctxObs{Err: ctx.Err()}})
 
@@ -731,13 +745,27 @@ func (h *fh) builder(k int) func(ctx context.Context) (Tok, error) {
 	}
 }
 
+type cancelDurKey struct{}
+
+// builderPanic is what a builder scripted with 'p' panics with; the calling harness thread recovers it.
+type builderPanic struct{}
+
+var errBuilderPanic = errors.New("builder panicked")
+
 // runGet performs one Get of a harness thread and the caller behaviour after it.
 func (h *fh) runGet(op GOp, buf []byte) {
 	ctx := context.WithValue(context.Background(), plantedKey{}, "planted")
 
 	var cancel context.CancelFunc
-	if op.Cancel {
+	if op.Cancel || strings.Contains(h.cfg.Script, "p") {
 		ctx, cancel = context.WithCancel(ctx)
+	}
+
+	if op.CDur {
+		var c context.CancelFunc
+
+		ctx, c = context.WithCancel(ctx)
+		ctx = context.WithValue(ctx, cancelDurKey{}, c)
 	}
 
 	if op.TTL != 0 || op.TTL0 {
@@ -769,7 +797,32 @@ func (h *fh) runGet(op GOp, buf []byte) {
 
 	h.ev(FEv{Kind: "get-start", Key: op.Key})
 
-	t, isNil, weird, err := h.front.Get(ctx, key, h.builder(op.Key))
+	var (
+		t       Tok
+		isNil   bool
+		weird   string
+		err     error
+		paniced bool
+	)
+
+	func() {
+		defer func() {
+			if r := recover(); r != nil {
+				if _, ok := r.(builderPanic); !ok {
+					panic(r)
+				}
+
+				paniced = true
+			}
+		}()
+
+		t, isNil, weird, err = h.front.Get(ctx, key, h.builder(op.Key))
+	}()
+
+	if paniced {
+		t, isNil, weird, err = Tok{}, true, "", errBuilderPanic
+	}
+
 	if weird != "" {
 		h.viol = append(h.viol, "fabricated: "+weird)
 	}
